@@ -2,6 +2,8 @@ package streamwriter
 
 import (
 	"bytes"
+	"errors"
+	"io"
 )
 
 type size interface {
@@ -20,6 +22,7 @@ type writer[SizeT size, Req any, Resp any] struct {
 	req       Request[Req]
 	buf       bytes.Buffer
 	chunkSize SizeT
+	err       error
 }
 
 func New[SizeT size, Req any, Resp any](chunkSize SizeT, stream Stream[Req, Resp], req Request[Req]) *writer[SizeT, Req, Resp] {
@@ -31,25 +34,50 @@ func New[SizeT size, Req any, Resp any](chunkSize SizeT, stream Stream[Req, Resp
 }
 
 func (w *writer[SizeT, Req, Resp]) Write(p []byte) (int, error) {
+	if w.err != nil {
+		return 0, w.err
+	}
+
 	_, _ = w.buf.Write(p)
 	buf := make([]byte, w.chunkSize)
 	for w.buf.Len() >= int(w.chunkSize) {
 		_, _ = w.buf.Read(buf)
 		err := w.stream.Send(w.req(buf))
 		if err != nil {
-			return 0, err
+			return 0, w.sendError(err)
 		}
 	}
 
 	return len(p), nil
 }
 
+// sendError returns the error the receiving side ended the stream with: once it
+// has done so Send only reports io.EOF and the status is delivered by CloseAndRecv.
+// The stream is finished then: later writes and Close keep reporting that error.
+func (w *writer[SizeT, Req, Resp]) sendError(err error) error {
+	w.err = err
+	if !errors.Is(err, io.EOF) {
+		return err
+	}
+
+	_, recvErr := w.stream.CloseAndRecv()
+	if recvErr != nil {
+		w.err = recvErr
+	}
+
+	return w.err
+}
+
 func (w *writer[SizeT, Req, Resp]) Close() error {
+	if w.err != nil {
+		return w.err
+	}
+
 	data := w.buf.Bytes()
 	if len(data) > 0 {
 		err := w.stream.Send(w.req(w.buf.Bytes()))
 		if err != nil {
-			return err
+			return w.sendError(err)
 		}
 	}
 
